@@ -30,11 +30,11 @@ RULE = ("cases: package configurations; executions: convolve_model_dir on both f
         "non-trivial = distinct configurations with >= 2 models")
 ASSUMPTIONS = ["all SEDs of a package share the wavelength grid", "finite value alphabets"]
 REQUIRED_CLASSES = ['permuted-table', 'filenames-disagree-with-model-names', 'listing-reversed', 'sed-wav-ascending', 'three-filters', 'single-model', 'eight-models',
-                    'five-apertures', 'formats-compared', 'fits-compared', 'remove-resolved', 'all-permutations-4', 'apertures-in-other-unit', 'seds-in-subdirs-or-gz', 'parameters-gz', 'seds-stored-in-Jy']
+                    'five-apertures', 'formats-compared', 'fits-compared', 'remove-resolved', 'all-permutations-4', 'apertures-in-other-unit', 'seds-in-subdirs-or-gz', 'parameters-gz', 'seds-stored-in-Jy', 'seds-on-different-grids', 'single-real-aperture']
 TIMEOUT = {'quick': 600, 'thorough': 3000}
 
 AXES = {'n_models': [3, 1, 2, 5, 8], 'n_ap': [2, 1, 3, 5], 'perm': ['identity', 'reversed', 'rotated', 'swap01'], 'fnames': ['same', 'reversed'],
-        'listing': ['sorted', 'reversed'], 'sord': ['wav-desc', 'wav-asc'], 'nfilt': [1, 3], 'rr': [False, True], 'ap_unit': ['AU', 'pc', 'cm'], 'layout': ['flat', 'subdir', 'gz', 'subdir+gz'], 'par_gz': [False, True], 'funit': ['mJy', 'Jy']}
+        'listing': ['sorted', 'reversed'], 'sord': ['wav-desc', 'wav-asc'], 'nfilt': [1, 3], 'rr': [False, True], 'ap_unit': ['AU', 'pc', 'cm'], 'layout': ['flat', 'subdir', 'gz', 'subdir+gz'], 'par_gz': [False, True], 'funit': ['mJy', 'Jy'], 'grids': ['same', 'interior'], 'single_ap_real': [False, True]}
 
 
 def setup(tier, seed):
@@ -42,7 +42,7 @@ def setup(tier, seed):
     out = [c for c in out if not (c['n_models'] == 1 and c['perm'] != 'identity') and not (c['n_models'] == 2 and c['perm'] == 'rotated')]
     for n in (2, 3, 4):
         for p in itertools.permutations(range(n)):
-            out.append({'fam': 'allperm', 'n_models': n, 'n_ap': 2, 'perm': list(p), 'fnames': 'same', 'listing': 'sorted', 'sord': 'wav-desc', 'nfilt': 1, 'rr': False, 'ap_unit': 'AU', 'layout': 'flat', 'par_gz': False, 'funit': 'mJy'})
+            out.append({'fam': 'allperm', 'n_models': n, 'n_ap': 2, 'perm': list(p), 'fnames': 'same', 'listing': 'sorted', 'sord': 'wav-desc', 'nfilt': 1, 'rr': False, 'ap_unit': 'AU', 'layout': 'flat', 'par_gz': False, 'funit': 'mJy', 'grids': 'same', 'single_ap_real': False})
     return {'tier': tier, 'seed': seed, 'cases': out}
 
 
@@ -115,6 +115,9 @@ def run_case(ctx, case, rec, d):
     perm = _perm(case['perm'], n_models)
     table_order = [base_names[i] for i in perm]
     ap = None if n_ap == 1 else 100.0 * 4.0 ** np.arange(n_ap)
+    if n_ap == 1 and case.get('single_ap_real'):
+        ap = np.array([750.0])          # one aperture, but a real one: it must be carried over like any other
+        rec.cls('single-real-aperture')
     apu = case.get('ap_unit', 'AU')
     AU_IN = {'AU': 1.0, 'pc': 1.0 / 206264.80624709636, 'cm': 1.495978707e13}[apu]      # one AU expressed in the unit
     ap_file = None if ap is None else ap * AU_IN
@@ -167,10 +170,18 @@ def run_case(ctx, case, rec, d):
         rec.cls('seds-in-subdirs-or-gz')
     if case.get('par_gz'):
         rec.cls('parameters-gz')
+    # per-file SEDs need not share a grid (same length and end points, other interior points for odd models); the cube
+    # cannot express that, so the two formats are then only compared with the exact sums, not with each other
+    hetero = (case.get('grids', 'same') != 'same')
+    w2 = w_asc.copy()
+    w2[1:-1] = w_asc[1:-1] + 0.3 * (w_asc[2:] - w_asc[1:-1])
+    wav_m = [w2 if (hetero and m % 2 == 1) else w_asc for m in range(n_models)]
+    if hetero:
+        rec.cls('seds-on-different-grids')
     # per-file: file names sorted differently from the model names when asked
     for m, nm in enumerate(base_names):
         fname = ('f%02d_sed.fits' % (n_models - 1 - m)) if case['fnames'] == 'reversed' else None
-        pkgwriter.write_sed_file(md1, nm, wav_file, flux[m][:, idx_file] * fscale, err[m][:, idx_file] * fscale, unit=funit, apertures_au=ap_file, ap_unit=apu, filename=fname,
+        pkgwriter.write_sed_file(md1, nm, (wav_m[m] if case['sord'] == 'wav-asc' else wav_m[m][::-1]), flux[m][:, idx_file] * fscale, err[m][:, idx_file] * fscale, unit=funit, apertures_au=ap_file, ap_unit=apu, filename=fname,
                                  subdir=(nm[:4] if m % 2 else nm[:3] + '_') if 'subdir' in layout else None, gz=('gz' in layout and m != 0))
     # cube: cube order = parameter-table order (the format requires it)
     pkgwriter.write_parameters(md2, table_order, {'par1': np.arange(n_models)[perm] + 0.5}, gz=case.get('par_gz', False))
@@ -213,6 +224,12 @@ def run_case(ctx, case, rec, d):
     for f, (nm, cw, fx, fy) in zip(filters, fdefs):
         R, over, tot = convref.rebin_exact(fx, np.asarray(f.response), nu_asc)
         Rf = np.array([float(x) for x in R])
+        Rf_m = {}
+        if hetero:
+            for m in range(n_models):
+                num = pkgwriter.C_M_S / (wav_m[m] * 1e-6)
+                om = np.argsort(num)
+                Rf_m[m] = (om, np.array([float(x) for x in convref.rebin_exact(fx, np.asarray(f.response), num[om])[0]]))
         for tag in outputs:
             names, ff, ee, fw, fa = outputs[tag][f.name]
             sub = {'variant': tag, 'filter': f.name}
@@ -224,6 +241,10 @@ def run_case(ctx, case, rec, d):
                 m = base_names.index(name)
                 ef = np.sum(flux[m][:, order_nu] * Rf[None, :], axis=1)
                 eerr = np.sqrt(np.sum((err[m][:, order_nu] * Rf[None, :]) ** 2, axis=1))
+                if hetero and tag == 'v1':
+                    om, Rm = Rf_m[m]
+                    ef = np.sum(flux[m][:, om] * Rm[None, :], axis=1)
+                    eerr = np.sqrt(np.sum((err[m][:, om] * Rm[None, :]) ** 2, axis=1))
                 rec.outcome((name, tuple(np.round(ef, 6))))
                 if not np.allclose(ff[r], ef, rtol=1e-10):
                     which = next((base_names[q] for q in range(n_models) if np.allclose(ff[r], np.sum(flux[q][:, order_nu] * Rf[None, :], axis=1), rtol=1e-8)), None)
@@ -240,7 +261,7 @@ def run_case(ctx, case, rec, d):
         a, b = outputs['v1'][f.name], outputs['v2-nomemmap'][f.name]
         c = outputs['v2-memmap'][f.name]
         rec.cls('formats-compared')
-        if a[0] == b[0] and not (np.allclose(a[1], b[1], rtol=1e-10) and np.allclose(a[2], b[2], rtol=1e-10) and np.allclose(b[1], c[1], rtol=1e-10) and np.allclose(b[2], c[2], rtol=1e-10)):
+        if not hetero and a[0] == b[0] and not (np.allclose(a[1], b[1], rtol=1e-10) and np.allclose(a[2], b[2], rtol=1e-10) and np.allclose(b[1], c[1], rtol=1e-10) and np.allclose(b[2], c[2], rtol=1e-10)):
             rec.violation('formats-disagree|files', {'filter': f.name}, {'v1_flux': a[1][0], 'v2_flux': b[1][0], 'v1_err': a[2][0], 'v2_err': b[2][0]})
     rec.trace()
     # ---- fits from the four variants
@@ -276,6 +297,8 @@ def run_case(ctx, case, rec, d):
             return
         rec.trans(len(srcs))
     ref_key = ('v1', False)
+    if hetero:
+        res = {k_: v_ for k_, v_ in res.items() if k_[0] == 'v1'}
 
     def byname(info):
         got = [str(x).strip() for x in np.asarray(info.model_name)]
